@@ -18,7 +18,7 @@ THOROUGH_ROUNDS = 8      # the thorough tier runs the generator over this many d
 REQUIRED = {"quick": {"C08.sphdist": 2500, "C08.gcirc": 1200, "C08.relations": 1500},
             "thorough": {"C08.sphdist": 50000, "C08.gcirc": 25000, "C08.relations": 30000}}
 FAMS = ["uniform", "tiny", "antipodal", "band", "polar", "seam", "equal"]
-FORMS = ["float", "0d", "len1", "len3", "long", "list", "view", "tuple"]
+FORMS = ["float", "0d", "len1", "len3", "long", "list", "view", "tuple", "dtypes"]
 LD = sp.LD
 TOL = {"sphdist": 1e-11, "gcirc": 2e-6}
 
@@ -49,7 +49,7 @@ def offset_point(ra, dec, s_deg, pa_deg):
 def make(case):
     rng = np.random.default_rng(case["sub"])
     fam, form = case["family"], case["form"]
-    n = {"float": 1, "0d": 1, "len1": 1, "len3": 3, "list": int(rng.integers(1, 6)), "tuple": int(rng.integers(2, 40)),
+    n = {"float": 1, "0d": 1, "len1": 1, "len3": 3, "list": int(rng.integers(1, 6)), "tuple": int(rng.integers(2, 40)), "dtypes": int(rng.choice([1, 3, 40])),
          "long": int(rng.choice([10, 100, 1000, 5000])), "view": int(rng.choice([2, 7, 100]))}[form]
     ra1 = rng.uniform(0, 360, size=n)
     dec1 = np.degrees(np.arcsin(rng.uniform(-1, 1, size=n)))
@@ -98,6 +98,26 @@ def shape_args(form, arrs):
         return [a.tolist() for a in arrs]
     if form == "tuple":
         return [tuple(a.tolist()) for a in arrs]
+    if form == "dtypes":
+        # whole-degree coordinates in narrow, unsigned and float32 dtypes (each array its own): exactly representable,
+        # so the true separation is that of the same numbers as float64.  Unsigned types hold ra in [0,255] / [0,360]
+        # and dec in [0,90]; int8 holds ra in [-128,127].
+        vr = np.random.default_rng(int(arrs[0].size) * 7919 + int(abs(arrs[0][0]) * 1000) % 9973)
+        out = []
+        types = ["u1", "u2", "u4", "u8", "i1", "i2", "i4", "i8", "f4", ">f4", ">i4", ">u2"]
+        tl = [str(vr.choice(types)), str(vr.choice(types))]      # one type for both longitudes, one for both latitudes
+        for k, a in enumerate(arrs):
+            islat = k in (1, 3)
+            t = tl[int(islat)]
+            w = np.round(a)
+            if islat:
+                w = np.clip(w, -90, 90)
+                if "u" in t:
+                    w = np.abs(w)
+            else:
+                w = w % 360 if t not in ("u1", "i1") else (w % 256 if t == "u1" else (w % 256) - 128)
+            out.append(w.astype(t))
+        return out
     if form == "view":
         # non-contiguous float64 views: every other element, negative stride, record field, 2-d column, inner slice
         vr = np.random.default_rng(int(arrs[0].size) + int(abs(arrs[0][0]) * 1000) % 9973)
@@ -203,6 +223,8 @@ def run_case(case):
     ra1, dec1, ra2, dec2 = make(case)
     form = case["form"]
     args = shape_args(form, (ra1, dec1, ra2, dec2))
+    if form == "dtypes":
+        ra1, dec1, ra2, dec2 = (np.asarray(a, dtype="f8") for a in args)      # the numbers actually handed over
     COL.sample({"family": case["family"], "form": form, "pair": [float(ra1[0]), float(dec1[0]), float(ra2[0]), float(dec2[0])]}, limit=7)
     wit = {"pair0": [float(ra1[0]), float(dec1[0]), float(ra2[0]), float(dec2[0])], "n": int(ra1.size)}
     for fn, f, tol in (("sphdist", co.sphdist, 1e-11), ("gcirc", lambda *a: np.degrees(co.gcirc(*a)), 2e-6)):
@@ -220,7 +242,7 @@ def run_case(case):
                 _rel("plus360", np.all(np.abs(np.atleast_1d(d3) - d) <= 2 * tol), "%s changes when 360 is added to a longitude" % fn, wit)
         if case["family"] == "equal":
             _rel("zero", np.all(d == 0.0), "%s of identical inputs is not exactly zero: %r" % (fn, d[:3]), wit)
-        if form in ("len3", "long", "len1", "view"):
+        if form in ("len3", "long", "len1", "view", "dtypes"):
             i = int(rng.integers(0, ra1.size))
             dsc, e = probe.attempt(f, float(ra1[i]), float(dec1[i]), float(ra2[i]), float(dec2[i]))
             if e is None:
